@@ -1058,7 +1058,10 @@ impl SubRule {
                     } else {
                         res_word.syllables.last_mut().unwrap().segments.push_back(*seg);
                         if let Some(m) = mods {
-                            let lc = res_word.apply_seg_mods(&self.alphas, m, pos, state.position)?;
+                            // `pos` is past the end of the word here: the modifiers go on the segment just appended
+                            let last_syll = res_word.syllables.len() - 1;
+                            let end_pos = SegPos::new(last_syll, res_word.syllables[last_syll].segments.len() - 1);
+                            let lc = res_word.apply_seg_mods(&self.alphas, m, end_pos, state.position)?;
                             if lc > 0 {
                                 pos.seg_index += lc.unsigned_abs() as usize;
                             }
@@ -1172,7 +1175,10 @@ impl SubRule {
                                 } else {
                                     res_word.syllables.last_mut().unwrap().segments.push_back(*seg);
                                     if let Some(m) = mods {
-                                        let lc = res_word.apply_seg_mods(&self.alphas, m, pos, state.position)?;
+                                        // `pos` is past the end of the word here: the modifiers go on the segment just appended
+                                        let last_syll = res_word.syllables.len() - 1;
+                                        let end_pos = SegPos::new(last_syll, res_word.syllables[last_syll].segments.len() - 1);
+                                        let lc = res_word.apply_seg_mods(&self.alphas, m, end_pos, state.position)?;
                                         if lc > 0 {
                                             pos.seg_index += lc.unsigned_abs() as usize;
                                         }
@@ -1759,7 +1765,10 @@ impl SubRule {
                         } else {
                             res_word.syllables.last_mut().unwrap().segments.push_back(*seg);
                             if let Some(m) = mods {
-                                let lc = res_word.apply_seg_mods(&self.alphas, m, pos, z.position)?;
+                                // `pos` is past the end of the word here: the modifiers go on the segment just appended
+                                let last_syll = res_word.syllables.len() - 1;
+                                let end_pos = SegPos::new(last_syll, res_word.syllables[last_syll].segments.len() - 1);
+                                let lc = res_word.apply_seg_mods(&self.alphas, m, end_pos, z.position)?;
                                 if lc > 0 {
                                     pos.seg_index += lc.unsigned_abs() as usize;
                                 }
